@@ -717,7 +717,13 @@ func boundaryText(r *fw.Rng, kind codingKind) (string, string) {
 		filler, multi = []rune("ab1 "), []rune{'中', '文', 0x20000, 0x1f600, 0x00e9, 0x3000, 0x4e02, 0x4dae, 0x3447, 0x2e81, 0xfffd, 0x10ffff}
 	default:
 		filler, multi = []rune("abc123 @"), []rune("[]{}^~|\\€\f")
-		switch r.Intn(3) {
+		switch r.Intn(4) {
+		case 3:
+			if r.Chance(1, 2) {
+				// letters of the alphabet written the other way Unicode allows — base letter + combining mark, ANGSTROM SIGN,
+				// OHM SIGN: not in the GSM repertoire as they stand, whatever they normalise to
+				filler = []rune("abcde\u0301 a\u030a\u212b\u2126o\u0308n\u0303u\u0308E\u0301")
+			}
 		case 0: // basic characters that take two UTF-8 octets, and escapes as ordinary filler
 			filler = []rune("abé£Δñ12[]")
 		case 1: // escape-heavy: more septets than UTF-8 octets
